@@ -103,7 +103,7 @@ static void basis_run (long item)
 				tr_mpq (dob);
 				if (!mpq_equal (dob, B->dobj) && !(L->objsense == REF_MAX && mpq_equal (dob, neg))) {
 					bdesc (L, cs, rs, desc, sizeof desc);
-					char *a = mpq_get_str (NULL, 10, dob), *b2 = mpq_get_str (NULL, 10, B->dobj);
+					char *a = q_str (dob), *b2 = q_str (B->dobj);
 					viol ("C12", "dualstatus-dobjval", "QSexact_basis_dualstatus reports dual bound %s but the exact dual objective of the basis is %s: %s", a, b2, desc);
 					free (a); free (b2);
 				}
